@@ -464,6 +464,64 @@ pub fn run(seed: u64, n: usize, out: &mut dyn Write) {
                 }
             }
         }
+        // ---- examples/mecab_smalldic (MeCab model -> small dictionary)
+        let have_example = env.bin.join("mecab_smalldic").exists();
+        if have_example {
+            steps.push("mecab_smalldic");
+        }
+        for mi in 0..(if have_example { 3 } else { 0 }) {
+            let (fd, rid, lid, md, cf, _) = crate::extract::gen_mecab_inputs(&mut rng);
+            // costs near the i32 limits make the connector's i32 sum overflow (outside C07's hypotheses); the
+            // library-level `extract` stream keeps the extreme factors for the file generation itself
+            let cf = if cf.is_finite() && cf.abs() <= 1e6 { cf } else { 700.0 };
+            let dual = rng.below(2) == 1;
+            let (lex, unk, chr): (&[u8], &[u8], &[u8]) = (b"a,0,0,0,f\n", b"DEFAULT,0,0,0,*\n", b"DEFAULT 0 1 0\n");
+            write(&env, "m_lex.csv", lex);
+            write(&env, "m_unk.def", unk);
+            write(&env, "m_char.def", chr);
+            write(&env, "feature.def", &fd);
+            write(&env, "right-id.def", &rid);
+            write(&env, "left-id.def", &lid);
+            write(&env, "model.def", &md);
+            let mut margs: Vec<String> = vec![
+                "-l".into(), p(&env, "m_lex.csv"), "-u".into(), p(&env, "m_unk.def"), "-c".into(), p(&env, "m_char.def"),
+                "-f".into(), p(&env, "feature.def"), "-a".into(), p(&env, "right-id.def"), "-b".into(), p(&env, "left-id.def"),
+                "-m".into(), p(&env, "model.def"), format!("--cost-factor={cf}"), "-o".into(), p(&env, "mecab.dic.zst"),
+            ];
+            if dual {
+                margs.push("--dual-connector".into());
+            }
+            let (st_m, _) = run_bin(&env, "mecab_smalldic", &margs, None);
+            let files = guarded(|| {
+                let (mut r, mut l, mut c) = (vec![], vec![], vec![]);
+                vibrato::mecab::generate_bigram_info(&fd[..], &rid[..], &lid[..], &md[..], cf, &mut r, &mut l, &mut c)
+                    .map(|_| (r, l, c))
+                    .map_err(|_| ())
+            });
+            let lib = match &files {
+                None => None,
+                Some(Err(())) => Some(Err(())),
+                Some(Ok((r, l, c))) => guarded(|| {
+                    SystemDictionaryBuilder::from_readers_with_bigram_info(lex, &r[..], &l[..], &c[..], chr, unk, dual).map_err(|_| ())
+                }),
+            };
+            if st_m != status_of(&lib) {
+                diffs.push(format!("mecab-status:{st_m}/{}", status_of(&lib)));
+            } else if let (Some(Ok((r, l, c))), "ok") = (&files, st_m) {
+                match unzstd_file(&env, "mecab.dic.zst").and_then(|b| guarded(|| Dictionary::read(&b[..]).ok()).flatten()) {
+                    Some(d) => {
+                        let obs = match crate::tok::conn_dump(&d) {
+                            Some(t) => format!("ok {t}"),
+                            // i32 overflow of the cost sum under overflow checks (weights × factor near the i32 limits)
+                            None => continue,
+                        };
+                        // the files are the library's (the extract stream ties them to the model); the table is the example's
+                        writeln!(out, "conn {id}.mecab{mi} KIND {} {} {} {} IMPL {obs} ## CLI=mecab_smalldic", if dual { 2 } else { 1 }, hex(r), hex(l), hex(c)).unwrap();
+                    }
+                    None => diffs.push("mecab-unreadable".to_string()),
+                }
+            }
+        }
         let obs = if diffs.is_empty() { "same".to_string() } else { format!("differs:{}", diffs.join(",")) };
         writeln!(out, "cli {id} IMPL {obs} ## STEPS={}", steps.join(",")).unwrap();
     }
